@@ -114,7 +114,7 @@ package chain
 // A new transaction context starts from the block state with empty transfer queues.
 //@ func (*Chain).NewStateContext
 //@   trusted
-//@   ensures balances != nil && fresh(balances) && len(balances.transfers) == 0 && len(balances.signedTransfers) == 0 && balances.mutex != nil && fresh(balances.mutex) && held(balances.mutex) == 0
+//@   ensures balances != nil && fresh(balances) && len(balances.transfers) == 0 && len(balances.signedTransfers) == 0 && balances.mutex != nil && fresh(balances.mutex) && held(balances.mutex) == 0 && balances.txn == txn
 //@   ensures forall k string :: $bal[k] == $blockBal[k] && $nonce[k] == $blockNonce[k]
 //@   ensures $ntr == 0
 //@   modifies $bal, $nonce, $ntr, $out, $in
@@ -129,7 +129,10 @@ package chain
 //@ func (*Chain).ExecuteSmartContract
 //@   trusted
 //@   modifies payload(balances).$all, $out, $in, $ntr, $saved, $nsaved, $deleted
-//@   ensures payload(balances, StateContext).mutex == old(payload(balances, StateContext).mutex)
+//@   ensures payload(balances, StateContext).mutex == old(payload(balances, StateContext).mutex) && payload(balances, StateContext).txn == old(payload(balances, StateContext).txn)
+// nil cannot be queued (AddTransfer / AddSignedTransfer are the only writers and dereference their argument)
+//@   ensures forall i in 0..len(payload(balances, StateContext).transfers) :: payload(balances, StateContext).transfers[i] != nil
+//@   ensures forall i in 0..len(payload(balances, StateContext).signedTransfers) :: payload(balances, StateContext).signedTransfers[i] != nil
 
 //@ func (*Chain).emitUserEvent
 //@   trusted
@@ -138,12 +141,12 @@ package chain
 // The deferred epilogue of updateState (cache commit / missing-node sync request) touches neither
 // the block state nor anything else modelled.
 //@ func (*Chain).updateState$1
-//@   prop C02, C03, C05
+//@   prop C02, C03, C04, C05
 //@   modifies nothing
 
 // updateState applies one transaction to the block state.
 //@ func (*Chain).updateState
-//@   prop C02, C03, C05
+//@   prop C02, C03, C04, C05
 //@   requires c != nil && b != nil && txn != nil && b.PrevBlock != nil && $blockNonce[txn.ClientID] >= 0 && $blockNonce[txn.ClientID] < MaxInt64
 //@   ensures[nonce-exactly-next] err == nil ==> txn.Nonce == old($blockNonce[txn.ClientID]) + 1
 //@   ensures[nonce-plus-one] err == nil ==> $blockNonce[txn.ClientID] == old($blockNonce[txn.ClientID]) + 1
@@ -151,6 +154,11 @@ package chain
 //@   ensures[failure-changes-nothing] err != nil ==> forall k string :: $blockBal[k] == old($blockBal[k]) && $blockNonce[k] == old($blockNonce[k])
 //@   ensures[supply-cap] txn.Value > MAXSUPPLY ==> err != nil
 //@   ensures[wrong-nonce-rejected] txn.Nonce != old($blockNonce[txn.ClientID]) + 1 ==> err != nil
+// (C04) what is applied has been validated: when the queued transfers are read back to be applied,
+// the transfers out of the sender add up to at most value + fee, and every signed transfer has a
+// valid signature of its source account
+//@   at-call GetTransfers assert[sender-debits-bounded-when-applied] senderDebit(sctx, len(sctx.transfers)) <= txn.Value + txn.Fee
+//@   at-call GetSignedTransfers assert[signed-transfers-verified-when-applied] forall i in 0..len(sctx.signedTransfers) :: signedOK(sctx.signedTransfers[i])
 //@   loop 1 header "for _, transfer := range sctx.GetTransfers()"
 //@   loop 1 invariant forall k string :: $nonce[k] == old($blockNonce[k]) && $blockNonce[k] == old($blockNonce[k]) && $blockBal[k] == old($blockBal[k])
 //@   loop 3 header "for _, signedTransfer := range sctx.GetSignedTransfers()"
